@@ -21,6 +21,7 @@ generated form case.
 import Proofs.Lemmas.EndToEndDrop
 import Proofs.Lemmas.EndToEndNodup
 import Proofs.Lemmas.EndToEndHNodup
+import Proofs.C02OrderStable
 import Proofs.C12Form
 import Proofs.C01SparseAll
 namespace Flatland.EndToEnd.Proofs
@@ -220,5 +221,29 @@ theorem end_to_end_narrow_generator (env : Env) (s : Schema) (e : Elem) (t : For
   obtain ⟨hl, hf, hsub, hcan, hw, hroot, hok, henv, hs, hnar, hdrop⟩ := hypsN_unpack h
   exact ⟨_, form_roundtrip_fresh_generator t hf hsub,
     fromFlat_formPairs_narrow env s e t henv hs hw hroot hok hl hcan hnar hdrop⟩
+
+/-! ### Arrays with two or more members: the composition through the STABLE `order_free`
+
+`order_free_stable` (Proofs/C02OrderStable.lean) lets the composition go through for Arrays of any size,
+GIVEN its two hereditary conditions on the element's own pairs: `HNodupA` (no scalar's key twice) and
+`ASame` (document order and breadth-first order hand every Array its pairs in the same order).  Both
+are believed to hold for every canonical `flatten` output / every form (the form walks the members of
+an Array in member order); here they are hypotheses — decidable on examples (`exArr2_via_stable`) —,
+and the form must have no unchecked box (`drop_setFlat` is about `HNodup`).  Deriving them from
+`hypsN` minus `narrowB` is what is left of `end_to_end_arrays_partial`. -/
+
+theorem fromFlat_formPairs_stable (env : Env) (s : Schema) (e : Elem) (t : FormTree)
+    (henv : EnvOK env) (hs : SepSafe env usep (Tok s)) (hw : wf s = true) (hroot : rootOK s = true)
+    (hok : OkS env s e) (hlink : embed t = resolve env s e)
+    (hnd : HNodupA env usep s (wrap (flatten env usep s e)))
+    (hsame : ASame env usep s (wrap (flatten env usep s e)) (wrap (formPairs [] t)))
+    (hun : uncheckedPairs [] t = []) :
+    fromFlat env usep s (formPairs [] t) = prS env usep false s e := by
+  have hperm : (flatten env usep s e).Perm (formPairs [] t) := by
+    have := formPairs_flatten t
+    rw [hun, List.append_nil, hlink] at this
+    exact this
+  rw [← order_free_stable env usep s _ _ hnd hperm hsame]
+  exact roundtrip_sparse env usep s e hs henv hw hroot hok
 
 end Flatland.EndToEnd.Proofs
